@@ -1,3 +1,13 @@
+-- root of the `Halo` library: model, specification predicates, driver, theorems
 import Halo.Num
 import Halo.Formulas
 import Halo.Spec
+import Halo.Driver.Fn
+import Halo.Proofs.Basic
+import Halo.Props.C04
+import Halo.Props.C05
+import Halo.Props.C08
+import Halo.Props.C09
+import Halo.Props.C10
+import Halo.Props.C12
+import Halo.Props.C15
